@@ -28,6 +28,9 @@ class C03(Check):
         for sh in G.ring0_shapes():
             if G.shape_is_wf(sh):
                 descs.append(("tx", G.tx_desc(rng, **sh), "empty-ring"))
+        for sh in G.big_count_shapes():
+            descs.append(("tx", G.tx_desc(rng, **sh), "big-count"))
+        descs.append(("block", G.block_desc(rng, 16384), "block-16384-hashes"))
         for _ in range(800 if not thorough else 12000):
             sh = G.random_shape(rng, small=True)
             descs.append(("tx", G.tx_desc(rng, **sh), "random-type%d" % sh["rct_type"]))
